@@ -1059,30 +1059,97 @@ class SymStr:
             return int(x), (len(x), len(x))
         return None
 
-    def _ord(self, o, op):
-        """lexicographic order of two pure decimal numerals (the only ordering of symbolic text that is modelled):
-        compare the numbers padded on the right to equal length; on a tie the shorter string is the smaller."""
-        a, b = SymStr._as_numeral(self), SymStr._as_numeral(o)
-        if a is None or b is None:
-            raise Unsupported("ordering of symbolic text")
-        (va, (la0, la1)), (vb, (lb0, lb1)) = a, b
-        if la1 > 12 or lb1 > 12:
-            raise Unsupported("ordering of long symbolic numerals")
-        za, zb = (va.z if type(va) is SymInt else z3.BitVecVal(va, W)), (vb.z if type(vb) is SymInt else z3.BitVecVal(vb, W))
+    @staticmethod
+    def _tokens(x):
+        """text -> tokens: ("c", char) for a non-digit character, ("n", z3 value, min digits, max digits) for a maximal digit run
+        (a concrete run keeps its length, so leading zeros compare correctly)"""
+        out = []
+        for p in (x.parts if type(x) is SymStr else [x]):
+            if type(p) is Dec:
+                lo, hi = len(str(max(p.v.iv[0], 0))), len(str(max(p.v.iv[1], 0)))
+                if hi > 12:
+                    raise Unsupported("ordering of long symbolic numerals")
+                out.append(("n", p.v.z, lo, hi))
+                continue
+            k = 0
+            while k < len(p):
+                if _isdig(p[k]):
+                    m = k
+                    while m < len(p) and _isdig(p[m]):
+                        m += 1
+                    if m - k > 12:
+                        raise Unsupported("ordering of long numerals")
+                    out.append(("n", z3.BitVecVal(int(p[k:m]), W), m - k, m - k, True))
+                    k = m
+                else:
+                    out.append(("c", p[k]))
+                    k += 1
+        return out
+
+    @staticmethod
+    def _lex(A, B):
+        """(A < B, A == B) as z3 Bools for token lists, lexicographic by character like str.__lt__.  A digit run is never
+        followed by a digit (SymStr invariant), which is what makes the comparison of two runs of different length decidable
+        from the numbers alone: either they differ inside the common length, or the shorter is a prefix and the character
+        after it (a non-digit or the end) is compared with a digit."""
+        T_, F_ = z3.BoolVal(True), z3.BoolVal(False)
+        if not A:
+            return (T_ if B else F_), (F_ if B else T_)
+        if not B:
+            return F_, F_
+        a, b = A[0], B[0]
+        if a[0] == "c" and b[0] == "c":
+            if a[1] != b[1]:
+                return (T_ if a[1] < b[1] else F_), F_
+            return SymStr._lex(A[1:], B[1:])
+        if a[0] == "c":
+            return (T_ if a[1] < "0" else F_), F_            # a non-digit against some digit
+        if b[0] == "c":
+            return (F_ if b[1] < "0" else T_), F_
 
         def has_len(z, n):
-            lo = 0 if n == 1 else 10 ** (n - 1)
-            return z3.And(z >= lo, z < 10 ** n)
-        cases = []
-        for i in range(la0, la1 + 1):
-            for j in range(lb0, lb1 + 1):
-                m = max(i, j)
-                pa, pb = za * (10 ** (m - i)), zb * (10 ** (m - j))
-                lt = z3.Or(pa < pb, z3.And(pa == pb, z3.BoolVal(i < j)))
-                eq = z3.And(pa == pb, z3.BoolVal(i == j))
-                res = {"<": lt, "<=": z3.Or(lt, eq), ">": z3.Not(z3.Or(lt, eq)), ">=": z3.Not(lt)}[op]
-                cases.append(z3.And(has_len(za, i), has_len(zb, j), res))
-        return SymBool(z3.simplify(z3.Or(*cases)))
+            return z3.And(z3.UGE(z, 0 if n == 1 else 10 ** (n - 1)), z3.ULT(z, 10 ** n))
+
+        def after(rest):
+            """is the text that follows a run smaller than a digit? (end of text or a character below '0')"""
+            if not rest:
+                return T_
+            if rest[0][0] == "c":
+                return T_ if rest[0][1] < "0" else F_
+            raise Unsupported("numeral directly followed by a digit")
+        za, zb = a[1], b[1]
+        lt_rest, eq_rest = SymStr._lex(A[1:], B[1:])
+        lts, eqs = [], []
+        for i in range(a[2], a[3] + 1):
+            for j in range(b[2], b[3] + 1):
+                guard = z3.And(T_ if len(a) > 4 else has_len(za, i), T_ if len(b) > 4 else has_len(zb, j))
+                if i == j:
+                    lt = z3.Or(z3.ULT(za, zb), z3.And(za == zb, lt_rest))
+                    eqs.append(z3.And(guard, za == zb, eq_rest))
+                elif i < j:                      # A's run may be a proper prefix of B's
+                    k = 10 ** (j - i)
+                    less, more = z3.ULE((za + 1) * k, zb), z3.UGT(za * k, zb)
+                    lt = z3.Or(less, z3.And(z3.Not(less), z3.Not(more), after(A[1:])))
+                else:                            # B's run may be a proper prefix of A's
+                    k = 10 ** (i - j)
+                    less, more = z3.ULT(za, zb * k), z3.UGE(za, (zb + 1) * k)
+                    lt = z3.Or(less, z3.And(z3.Not(less), z3.Not(more), z3.Not(after(B[1:]))))
+                lts.append(z3.And(guard, lt))
+        return z3.Or(*lts), (z3.Or(*eqs) if eqs else F_)
+
+    def _ord(self, o, op):
+        """lexicographic order of texts made of concrete characters and numeral atoms (str.__lt__ semantics)"""
+        if type(o) is not SymStr and type(o) is not str:
+            if type(o) is DigitChar:
+                raise Unsupported("ordering against a numeral's digit")
+            return NotImplemented
+        lt, eq = SymStr._lex(SymStr._tokens(self), SymStr._tokens(o))
+        res = z3.simplify({"<": lt, "<=": z3.Or(lt, eq), ">": z3.Not(z3.Or(lt, eq)), ">=": z3.Not(lt)}[op])
+        if z3.is_true(res):
+            return True
+        if z3.is_false(res):
+            return False
+        return SymBool(res)
 
     def __lt__(self, o): return self._ord(o, "<")
     def __le__(self, o): return self._ord(o, "<=")
